@@ -18,7 +18,7 @@ CHECKS = {
    note="trusted: the mapping as documented in the plugin's comments and re-stated in props/c04.py; typing's Union equality", ref="3/C04"),
  "C09": dict(cat="exploration", technique="exhaustive enumeration of methods x facets and of the registry",
    text="All 95 methods x 7 facets and all registry names are enumerated and compared with relations derived from lsp.json; complete for the finite domain.",
-   note="trusted: message-class naming rule and UPPER_SNAKE derivation re-implemented in refmodel.py", ref="3/C09"),
+   note="trusted: message-class naming rule and UPPER_SNAKE derivation re-implemented in refmodel.py; the forward-reference scan also runs in a fresh process of every installed interpreter 3.8-3.13 (known finding KF-py38-alias-chain-forward-refs)", ref="3/C09"),
  "C15": dict(cat="exploration", technique="property-based testing (Hypothesis): metamorphic insertion of undeclared keys",
    text="Metamorphic: generated valid values get fresh undeclared keys with arbitrary JSON payloads at generated protocol-object nodes; result object and re-serialisation must be unchanged. Names include node-relative respellings (snake/kebab/Pascal...) of the node's own properties and names meaningful to Python.",
    note="fresh = declared nowhere in the metamodel; payload/map positions excluded", ref="3/C15"),
@@ -28,12 +28,12 @@ CHECKS = {
 
  "C10": dict(cat="exploration", technique="exhaustive over attributes x Hypothesis-generated surroundings; null-vs-omitted oracle from lsp.json",
    text="Every attribute of every generated class is toggled between set / null / unset inside generated valid objects, serialised through the constructor path and parsed with the key deleted; the oracle is the rule as stated, computed from lsp.json.",
-   note="exhaustive in (class, attribute), sampled in surroundings; unset result of a response whose result type does not admit null is not judged (not a value of the annotated type)", ref="3/C10"),
+   note="exhaustive in (class, attribute), sampled in surroundings; the error reply's id is integer | string | null (base protocol)", ref="3/C10"),
  "C11": dict(cat="exploration", technique="property-based testing (Hypothesis): single-field mutation of valid values must be rejected",
    text="Exhaustive over root-level (structure, property, edit) triples with generated surroundings plus random nested edit sites; each of the four stated edits must make structuring raise.",
-   note="edit sites never lie below a real union; CompletionItemKind is open (documented customisation)", ref="3/C11"),
+   note="edit sites never lie below a real union; CompletionItemKind is open (documented customisation); integer | null counts as an integer property; numbers outside a range by less than one are an edit kind of their own (known finding KF-fraction-cut-off-into-range)", ref="3/C11"),
  "C12": dict(cat="exploration", technique="exhaustive boundary grid x attributes + Hypothesis ints; range predicate oracle at both entry points; validator fuzzing",
-   text="All directly integer-typed attributes x the boundary set exhaustively and random ints through constructor and converter (same verdict, equal to the range predicate); the two validator functions with arbitrary Python values. Numbers are also given as int-subclass instances and as members of the package's integer enumerations.",
+   text="All directly integer-typed attributes x the boundary set exhaustively and random ints through constructor and converter (same verdict, equal to the range predicate); the two validator functions with arbitrary Python values. Numbers are also given as int-subclass instances and as members of the package's integer enumerations; the validator pool has values whose text is very long (10**5000) or cannot be produced (formatting raises).",
    note="bool excluded from the int verdict", ref="3/C12"),
  "C13": dict(cat="exploration", technique="exhaustive enumeration of enum values and use sites + Hypothesis custom/outside values",
    text="Static comparison of all enumerations (multiset of values, both directions) and, at every use site and root, every declared value must parse/round-trip, custom values for open enumerations, outside values rejected for closed ones when no reading makes the root valid.",
@@ -49,7 +49,7 @@ CHECKS = {
    text="Every item of the lib.rs emitted from the working tree (and of the committed copy) is parsed and compared with an independent re-statement of the mapping: field-name sets under serde's rename rule, type trees, Option wrapping, enum discriminants incl. the hand-written impls, untagged aliases, message structs, method enums, feature gates; both directions.",
    note="declarations only - serde runtime behaviour is not exercised (no crates offline)", ref="3/C07"),
  "C08": dict(cat="exploration", technique="exhaustive enumeration of emitted C# files against an independent mapping (text analyser, fail-closed)",
-   text="Every .cs file the dotnet plugin writes from the working tree is parsed; DataMember sets, type trees, nullability, NullValueHandling, constructor assignment, enum values and the per-method metadata table (LSPRequest/LSPResponse pairing, LSPMethods constants, Direction) are compared with lsp.json.",
+   text="Every .cs file the dotnet plugin writes from the working tree is parsed; DataMember sets, type trees, nullability, NullValueHandling, constructor assignment, enum values and the per-method metadata table (LSPRequest/LSPResponse pairing, LSPMethods constants, Direction) are compared with lsp.json. At every position of an anonymous literal the C# type written there must name a generated class of its own whose data members are the literal's properties.",
    note="declarations only (no .NET SDK); value-type collections judged on constructor defaults", ref="3/C08"),
  "C17": dict(cat="exploration", technique="exhaustive over all emitted vectors against an independent strict validator + converter acceptance",
    text="All vectors written by a real CLI run of the testdata plugin are named/hashed correctly, labelled exactly as an independent strict metamodel validator decides, every message class has a True vector and every True vector is accepted by the Python converter.",
@@ -59,14 +59,14 @@ CHECKS = {
    text="Metamodels are generated as schema-valid edit sequences of lsp.json and given to all four plugins; plugin termination, import of the generated module and the C01-C04/C07-C10/C17 oracles are evaluated for the evolved model. Samples an unbounded family bounded by <=6 edits and the stated type grammar. Every evolved document is also cut into two model files at drawn indices (metamorphic: merge is concatenation, the output must not change); standing foci keep one production per past defect.",
    note="grammar excludes general unions, open-enum references and union aliases (they need hand-written hooks); rustfmt acceptance stands for 'parses'", ref="3/C06"),
  "C18": dict(cat="exploration", technique="property-based testing (Hypothesis): read-back/concatenation/equality oracles over generated documents and generated schema-violating edits",
-   text="Generated schema-valid documents (evolved models, schema-directed mutations) are loaded and read back generically; merges compared with list concatenation; structural single edits must compare unequal and comparisons never raise; schema-violating single edits x 4 plugins x position must fail before any plugin runs and write nothing (spy + real CLI sample). Model files also go through the real command under a non-UTF-8 locale encoding.",
+   text="Generated schema-valid documents (evolved models, schema-directed mutations) are loaded and read back generically; merges compared with list concatenation; structural single edits must compare unequal and comparisons never raise; schema-violating single edits x 4 plugins x position must fail before any plugin runs and write nothing (spy + real CLI sample). Model files also go through the real command under a non-UTF-8 locale encoding, and several files both as one option with two values and as a repeated option. Open/closed enumeration and typeName count as structural edits.",
    note="schema-valid = valid against the MetaModel definition; annotation-only edits are not required to be unequal", ref="3/C18"),
 
  "C16": dict(cat="exploration", technique="stateful property-based testing (Hypothesis RuleBasedStateMachine) over output-directory histories x hash seeds",
-   text="Per plugin a state machine runs the real generator CLI repeatedly into one directory with generated model lists, hash seeds and planted stale files; after every run the digest map of the plugin-owned files must equal the fresh-directory reference computed in another process under another hash seed. Runs vary working directory, path spelling, search path, clock/user/machine; configuration files of formatters and build tools are planted in the output tree; an in-process history generates again from the same model object.",
+   text="Per plugin a state machine runs the real generator CLI repeatedly into one directory with generated model lists, hash seeds and planted stale files; after every run the digest map of the plugin-owned files must equal the fresh-directory reference computed in another process under another hash seed. Runs vary working directory, path spelling, search path, clock/user/machine; configuration files of formatters and build tools are planted in the output tree; an in-process history generates again from the same model object. Output directories are also called like the plugin (named relative to their parent), hold the package directory or another plugin's output before the first run; variants of the rust test harness (markers missing/swapped/with trailing blanks, CRLF, blank lines at the end) must be fixed points of the run.",
    note="owned-file patterns as listed in the evidence; slow plugins use reduced closed sub-models in the quick tier", ref="3/C16"),
  "C19": dict(cat="exploration", technique="harness-owned thread scheduler (sys.settrace yield points, Hypothesis-generated schedules, forked pristine children) + stateful creation histories",
-   text="First-use concurrency is explored under a deterministic scheduler that owns the interleaving at line granularity inside the forward-reference resolution; creation histories over fresh/user-supplied converters are checked by a rule-based state machine against a battery; thorough adds real-thread trials. Schedules continue into each thread's first use (in-thread observations compared); histories contain creations cut short by injected asynchronous exceptions / RecursionError followed by a wide battery; every non-customised configuration is compared with get_converter() on routed values of every union alternative (JSON and object classes).",
+   text="First-use concurrency is explored under a deterministic scheduler that owns the interleaving at line granularity inside the forward-reference resolution; creation histories over fresh/user-supplied converters are checked by a rule-based state machine against a battery; thorough adds real-thread trials. Schedules continue into each thread's first use (in-thread observations compared); histories contain creations cut short by injected asynchronous exceptions / RecursionError followed by a wide battery; every non-customised configuration is compared with get_converter() on routed values of every union alternative (JSON and object classes). User-supplied kinds include cattrs preconf (json) converters and a converter with cattrs' union passthrough.",
    note="switches inside C code are not controlled; outcomes compared as raised/JSON, not exception types; time-outs are inconclusive", ref="3/C19"),
 }
 
